@@ -1696,6 +1696,7 @@ pub fn from_reader_with_options<'a, R: std::io::Read + 'a, T: DeserializeOwned>(
 ) -> Result<T, Error> {
     let cfg = crate::de::Cfg::from_options(&options);
     let crop_radius = options.crop_radius;
+    let with_snippet = options.with_snippet;
 
     // Wrap the reader in a SharedRingReader to capture context for error snippets
     let shared_ring = ring_reader::SharedRingReader::new(reader);
@@ -1713,7 +1714,7 @@ pub fn from_reader_with_options<'a, R: std::io::Read + 'a, T: DeserializeOwned>(
 
     // Helper to attach snippet to an error using the RingReader's context
     let attach_snippet = |e: Error| -> Error {
-        if crop_radius == 0 {
+        if crop_radius == 0 || !with_snippet {
             return e;
         }
         match shared_ring.get_recent() {
